@@ -1,5 +1,5 @@
 import PallasVerif.Proofs.NetMsg
-import PallasVerif.Proofs.NetSkip
+import PallasVerif.Proofs.NetSkipFull
 import PallasVerif.Gen.MsgLabels
 /-!
 # C22 — Mini-protocol messages round-trip as single well-formed CBOR items
@@ -22,9 +22,11 @@ tree (`localtxsubmission_partial`, `txvalidationerror_reencoding_not_an_item`, k
 
 Opaque `AnyCbor` payloads (local-state query/result, opaque reject reasons, Leios bodies / votes /
 transactions) are arbitrary byte strings accepted by `okAny`: exactly one well-formed item
-(`isSingleItem`) over which the modelled `Decoder::skip` goes exactly — proved for every item
-without indefinite-length arrays/maps and with UTF-8 text (`Proofs/NetSkip.lean`,
-`skip_exact_of_skippable`); payloads with indefinite containers are only sampled by the stream.
+(`isSingleItem`) whose text strings are UTF-8. `Decoder::skip` (the counting / stack loop of
+minicbor, which `AnyCbor::decode` relies on) is proved to go over exactly such an item, indefinite
+arrays and maps at any depth included (`Proofs/NetSkipFull.lean`, `skip_exact`). The UTF-8 clause is
+not an artefact: `skip` validates text, so an `AnyCbor` holding a text string that is not UTF-8 can
+be encoded but not decoded back (`anycbor_invalid_utf8_is_rejected`).
 
 `Gen/MsgLabels.lean` is regenerated from the Rust sources on every run (label and declared arity of
 every `e.array(n)?.u16(k)?` arm of both stacks); `labels_match_*` compare it with the labels and
@@ -44,8 +46,9 @@ theorem good_of_specO {α : Type} {enc : α → Option E} {dec : Dec α} {a : α
 theorem good_of_spec {α : Type} {enc : α → E} {dec : Dec α} {a : α} (h : Spec enc dec a) : Good (fun x => some (enc x)) dec a :=
   good_of_specO ⟨_, rfl, h.1, h.2⟩
 
-/-- opaque payloads the theorems cover: one well-formed item `Decoder::skip` is proved exact on -/
-def okAny (bs : Bytes) : Bool := isSingleItem bs && skippable (leafItem bs) && decide (bs.length < 2 ^ 64)
+/-- opaque payloads the theorems cover: any one well-formed item with UTF-8 text (and shorter than
+    `2^62` bytes, as every slice is) -/
+def okAny (bs : Bytes) : Bool := isSingleItem bs && utf8Ok (leafItem bs) && decide (bs.length < 2 ^ 62)
 
 theorem okAny_ok : AnyOk okAny := by
   intro bs h
@@ -54,7 +57,7 @@ theorem okAny_ok : AnyOk okAny := by
   refine ⟨h1, ?_⟩
   obtain ⟨w, e⟩ := leafItem_spec bs h1
   rw [e] at h3 ⊢
-  exact skip_exact_of_skippable _ w h2 h3
+  exact skip_exact _ w h2 h3
 
 /-! ## the property, per message type (both stacks share the codecs; `portMax` is the only difference) -/
 
@@ -161,6 +164,10 @@ theorem declared_len_matches {α : Type} (enc : α → Option E) (dec : Dec α) 
   obtain ⟨e, he, hl, hs, _⟩ := h
   exact ⟨e, he, hl, (isSingleItem_iff _).mp hs⟩
 
+/-- a payload that is a well-formed item but holds a non-UTF-8 text string: `skip` (hence
+    `AnyCbor::decode`) rejects it, so it cannot round-trip — the reason for the UTF-8 clause of `okAny` -/
+theorem anycbor_invalid_utf8_is_rejected : isSingleItem [0x61, 0xff] = true ∧ anyCbor [0x61, 0xff] = .err := by decide
+
 /-! ## the two encoders the unchanged tree got wrong (both repaired; kept as regression witnesses) -/
 
 /-- `PeerAddress::V6` used to declare `array(8)` for its six items: not an item for a strict parser -/
@@ -239,6 +246,8 @@ example : (Handshake.Msg.refuse (.refused 13 [0xce, 0xbb]) : Handshake.Msg N2CDa
 example : (PeerSharing.Msg.sharePeers [.v6 0x20010db8000000000000000000000001 3001, .v4 0x7f000001 65535]).valid U16MAX = true := by decide
 example : (TxSubmission.Msg.replyTxIds [⟨⟨6, [1, 2, 3]⟩, 4294967295⟩]).valid = true := by decide
 example : (LocalState.Msg.query [0x82, 0x00, 0x81, 0x18, 0x2a]).valid okAny = true := by decide
+/-- indefinite containers nested in definite ones and vice versa, indefinite strings, tags -/
+example : (LocalState.Msg.result [0x9f, 0x82, 0x01, 0x9f, 0xff, 0xbf, 0x61, 0x61, 0x5f, 0x41, 0x00, 0xff, 0xff, 0xc1, 0x83, 0x9f, 0xff, 0x01, 0x02, 0xff]).valid okAny = true := by decide
 example : (LeiosFetch.Msg.blockTxs (.specific 5 [9]) [(0, 18446744073709551615), (3, 1)] [[0xa1, 0x01, 0x61, 0x61], [0xd8, 0x18, 0x41, 0x00]]).valid okAny = true := by decide
 example : (LocalMsgNotification.Msg.replyBlocking [⟨[1], ⟨[2], 3, 4⟩, [5], ⟨[6], 7, 8, [9]⟩, [10]⟩]).valid = true := by decide
 /-- an unrepresentable combination is excluded, not silently accepted -/
